@@ -116,6 +116,15 @@ def h_report(ctx, sub, ws, we, nd, t, twin=False):
     ctx.holds("decoded report returns the same request id, step id, error code, failure data", sym_and(*conds))
     ctx.holds("repack identical", u.pack() == raw)
     ctx.holds("decoded == original", u == tm)
+    others = []
+    for s2 in (6, 1, 5, 8):
+        sid = PacketFieldEnum.with_byte_size(ws, 1) if s2 in STEP_SUBS else None
+        fn2 = FailureNotice(PacketFieldEnum.with_byte_size(we, 2), b"\x99") if s2 in FAIL_SUBS else None
+        rq = RequestId.unpack(bytes([0x18, 0x7F, 0xC1, 0x23]))
+        others.append((bytes(Service1Tm(0x55, s2, bytes(range(t)), VerificationParams(rq, sid, fn2)).pack()), UnpackParams(t, ws, we)))
+    earlier_result_survives(ctx, lambda: sym_and(*(conds + [u == tm, u.pack() == raw])),
+                            [(lambda o=o, p=p: Service1Tm.unpack(o, p)) for o, p in others])
+    pack_hands_out_fresh_buffers(ctx, tm.pack, ctx.bytes_of(ref))
     if twin:
         ctx.holds("twin", raw != ctx.bytes_of(ref))
 
